@@ -10,6 +10,7 @@ pub fn gen(rng: &mut Rng, cfg: &PCfg, size: usize) -> Doc {
     let n_lines = match size {
         0 => rng.below(4),
         1 => rng.below(10),
+        3 => rng.range(3000, 4000),
         _ => rng.range(6, 40),
     };
     let mut have_s = false;
